@@ -72,7 +72,7 @@ func declaredN(dec string, s []byte) (n uint64, defined bool) {
 
 func runDecode(w *tr.W, in decIn) {
 	s := string(i2b(in.Bytes))
-	ev := tr.E{"ev": "Decode", "dec": in.Dec, "bytes": in.Bytes, "res": "ok", "rt_same": true}
+	ev := tr.E{"ev": "Decode", "dec": in.Dec, "bytes": in.Bytes, "res": "ok", "rt_same": true, "fresh": true}
 	empty, _ := obsAny(graph.NewDense(0, nil))
 	ev["obs"] = empty
 	if n, def := declaredN(in.Dec, []byte(s)); def && n > 4096 {
@@ -83,6 +83,34 @@ func runDecode(w *tr.W, in decIn) {
 	var g graph.Graph
 	var err error
 	same := true
+	// every call returns its own graph: an earlier result of the same string is edited first, which must not show in this one
+	obs.SafeT(3*time.Second, func() {
+		var prev graph.EditableGraph
+		var e0 error
+		if in.Dec == "g6" {
+			var d *graph.DenseGraph
+			d, e0 = graph.Graph6Decode(s)
+			if e0 == nil && d != nil {
+				prev = d
+			}
+		} else {
+			var d *graph.SparseGraph
+			d, e0 = graph.Sparse6Decode(s)
+			if e0 == nil && d != nil {
+				prev = d
+			}
+		}
+		if prev != nil {
+			prev.AddVertex([]int{})
+			if prev.N() >= 2 {
+				if prev.IsEdge(0, 1) {
+					prev.RemoveEdge(0, 1)
+				} else {
+					prev.AddEdge(0, 1)
+				}
+			}
+		}
+	})
 	res := obs.SafeT(3*time.Second, func() {
 		if in.Dec == "g6" {
 			var d *graph.DenseGraph
